@@ -1,6 +1,7 @@
 import SnaxVerif.Drv.C07
 import SnaxVerif.Props.C06
 import SnaxVerif.Model.AccfgMove
+import SnaxVerif.Model.AccfgLoopOverlap
 namespace SnaxVerif.Drv.C06
 open Lean SnaxVerif SnaxVerif.Drv SnaxVerif.Drv.C07 SnaxVerif.Accfg
 
@@ -17,5 +18,14 @@ def move : Handler := fun j => do
   return Json.mkObj [("after", jOpt blockToJson (applyBlockMove path flags b)),
     ("wf", Json.bool (wfB b)), ("nodup", Json.bool (nodupB b))]
 
-def handlers : List (String × Handler) := [("c06.witness", witness), ("c06.move", move)]
+/-- args: {"path": [nat] (anchor = the loop), "j": nat, "fresh": nat, "body": block} -> {"after": block | null} -/
+def loopOverlap : Handler := fun j => do
+  let b ← blockOfJson (← field j "body")
+  let path ← listOf nat (← field j "path")
+  let jj ← nat (← field j "j")
+  let fresh ← nat (← field j "fresh")
+  return Json.mkObj [("after", jOpt blockToJson (applyLoopOverlap path jj fresh b)),
+    ("wf", Json.bool (wfB b)), ("nodup", Json.bool (nodupB b))]
+
+def handlers : List (String × Handler) := [("c06.witness", witness), ("c06.move", move), ("c06.loop", loopOverlap)]
 end SnaxVerif.Drv.C06
